@@ -8,6 +8,10 @@ CLAIMS = {
    text="TLC checks the coherence laws (equivalence, trichotomy, unions, transitivity, prefix order, key-order insensitivity, u* agreement) on the specification's Equals/Compare over every pair and triple of a universe dense in near-equal values; every pair is then replayed through the real evaluator for all ten operators under several monotone number lifts, so the laws transfer to the code on that universe; seeded random pairs/triples recorded from the real evaluator are validated by TLC against the same operators.",
    note="Trusted: TLC, the harness renderer (value -> source text), monotone zero-preserving number lifts, code-point-sorted alphabet. NaN excluded as the property states. Random part is sampled, not exhaustive.",
    technique="TLA+ spec (BlotsOrder) model-checked with TLC; TLC-enumerated cases replayed into the real evaluator; recorded traces validated by TLC (Trace_C12)"),
+ "C10": dict(category="model_checking", design_ref="5 C10",
+   text="The precedence table of the property is data in Syntax.tla with a reference precedence-climbing parser and two printers; TLC checks ParseRef(PrintFull(t)) = t and ParseRef(PrintMin(t)) = t on every enumerated tree (design check) and emits every flat token string (all operator pairs, triples, prefix/postfix decorations), every admitted layout decoration of every gap (and gap pair) of 18 templates, redundant-parenthesis / trailing-comma variants and every reserved word extended by a suffix/prefix; the real parser must produce exactly the reference tree (flat and fully parenthesised), the same program under every layout, and bound names must evaluate in 19 positions. Random deep token strings parsed by the real parser are validated by TLC against ParseRef.",
+   note="Trusted: TLC, the token renderer and AST projection in the harness. The table is independent of precedence.rs (which feeds both the repo's parser and printer). Layout admissibility (Admit) is a measured subset of what grammar.pest admits.",
+   technique="TLA+ spec (Syntax: precedence table, reference parser, printers) model-checked with TLC; cases replayed into the real parser; recorded parses validated by TLC (Trace_C10)"),
  "C11": dict(category="model_checking", design_ref="5 C11",
    text="The broadcasting law is written once in TLA+ (BinOp over ElemOp) and TLC checks its shape/content/failure conditions for every (operator, left, right) state - 17 operators x scalar-scalar, list-scalar, scalar-list, list-list (equal and unequal lengths) over pools with NaN, infinities, signed zero, strings, booleans, null, nested lists; every state is replayed through the real evaluator against the exact-integer / IEEE-special-value semantics of NumOp; recorded random broadcasts (length 0..8, arbitrary doubles) are validated by TLC against per-element results from the real evaluator, plus algebraic identities.",
    note="Trusted: TLC, value renderer, identity number lift. Correct rounding of arithmetic on general doubles is delegated to hardware/libm and is decided only through exact-integer, special-value and algebraic cases.",
